@@ -18,7 +18,7 @@ def apply(mod, pid):
     inner = mod.families
 
     def families(tier, seed, _inner=inner, _mode=mode):
-        return _inner(tier, seed) + [("hist", seed, 4 if tier == "quick" else 30, [_mode])]
+        return _inner(tier, seed) + [("hist", seed, (3 if _mode in ("c07", "c08", "c20") else 4) if tier == "quick" else 30, [_mode])]
     mod.families = families
     mod.RULE = getattr(mod, "RULE", "") + RULE
     mod.LEVEL_NOTE = getattr(mod, "LEVEL_NOTE", "") + NOTE
